@@ -220,7 +220,7 @@ def run(ctx: Ctx, pool, col=None):
                    f"{expr[12:-1]} (opt {opt}): compiled {comp[:200]}, CPython {interp[:200]}",
                    {"kind": "zipb", "function": f.source(), "name": f.name, "call": expr, "opt": opt, "compiled": comp, "cpython": interp},
                    cap=6)
-    if model_bad and not ctx.violations:
+    if model_bad:
         f, lens, i, tc, tm, expr, opt = model_bad[0]
         violation_nf(ctx, "zip-model", f"zip loop over operand kinds {''.join(f.kinds)} with lengths {list(lens)}: compiled code took {tc} item(s) "
                      f"from operand {i}, Model/ForZip.lean says {tm}; no difference from CPython seen",
